@@ -15,6 +15,27 @@ V = "/verif"
 OUT = f"{V}/selftest/variants"
 
 
+def _reverse_on_head(h):
+    """The reverse of fix `h` as a diff against the *current* HEAD (three-way: later fixes may have touched the same lines);
+    None if it does not revert cleanly.  Uses a scratch worktree under /tmp, removed at once."""
+    import tempfile
+
+    wt = tempfile.mkdtemp(prefix="genvar_", dir="/tmp")
+    os.rmdir(wt)
+    try:
+        if subprocess.run(["git", "-C", "/repo", "worktree", "add", "--detach", wt, "HEAD"], capture_output=True).returncode != 0:
+            return None
+        r = subprocess.run(["git", "-c", "user.email=x@x", "-c", "user.name=x", "revert", "--no-commit", h], cwd=wt, capture_output=True, text=True)
+        if r.returncode != 0:
+            return None
+        d = subprocess.run(["git", "diff", "HEAD", "--", "asimap", ":(exclude)asimap/test"], cwd=wt, capture_output=True, text=True).stdout
+        return d if d.strip() else None
+    finally:
+        subprocess.run(["git", "-C", "/repo", "worktree", "remove", "--force", wt], capture_output=True)
+        subprocess.run(["rm", "-rf", wt])
+        subprocess.run(["git", "-C", "/repo", "worktree", "prune"], capture_output=True)
+
+
 def main():
     os.makedirs(OUT, exist_ok=True)
     for f in os.listdir(OUT):
@@ -23,7 +44,7 @@ def main():
     index = []
     for e in known["fixed"]:
         h = e["commit"]
-        d = subprocess.run(["git", "-C", "/repo", "diff", h, f"{h}~1", "--", "asimap", ":(exclude)asimap/test"], capture_output=True, text=True).stdout
+        d = _reverse_on_head(h) or subprocess.run(["git", "-C", "/repo", "diff", h, f"{h}~1", "--", "asimap", ":(exclude)asimap/test"], capture_output=True, text=True).stdout
         if not d.strip():
             print("empty reverse diff for", h, file=sys.stderr)
             continue
